@@ -100,12 +100,24 @@ type Prog struct {
 
 	Faulty []Silence `json:"faulty,omitempty"`
 
-	InOrder bool  `json:"in_order"`           // one constant link delay, validating peer sees messages with one constant delta
-	DelayMs int   `json:"delay_ms"`           // in-order: the link delay
-	Delays  []int `json:"delays,omitempty"`   // otherwise: per (message, receiver) link delays, consumed cyclically
-	Deltas  []int `json:"deltas"`             // delta of the validating peer per message, consumed cyclically (one entry when in-order)
-	NoCap   bool  `json:"no_cap,omitempty"`   // do not clip link delays to the end of the message's round (slot-anchored roles)
-	QueueSz int   `json:"queue_sz,omitempty"` // operator queue capacity (0 = 1024)
+	InOrder bool  `json:"in_order"`         // one constant link delay, validating peer sees messages with one constant delta
+	DelayMs int   `json:"delay_ms"`         // in-order: the link delay
+	Delays  []int `json:"delays,omitempty"` // otherwise: per (message, receiver) link delays, consumed cyclically
+	Deltas  []int `json:"deltas"`           // delta of the validating peer per message, consumed cyclically (one entry when in-order)
+	NoCap   bool  `json:"no_cap,omitempty"` // do not clip link delays to the end of the message's round (slot-anchored roles)
+	// PeerBehindMs: the validating peer's clock runs this much behind the operators' (0..50 ms, the validator's own
+	// clockErrorTolerance): it stamps a message received at true time T with T - PeerBehindMs.
+	PeerBehindMs int `json:"peer_behind_ms,omitempty"`
+	QueueSz      int `json:"queue_sz,omitempty"` // operator queue capacity (0 = 1024)
+	// ExpiredTimerFirst, per operator: a timer armed after its deadline fires at once; its event reaches the operator's
+	// queue either before the operator pops its next message (true: handled first, events have top priority) or a
+	// moment (1 ms) later, after the messages already queued have been handled (false). Both are schedules of the real
+	// node: the timer goroutine races with the queue consumer (and, at the start of an instance, with
+	// BaseRunner.registerTimeoutHandler, which installs the callback only after the instance has armed the timer).
+	ExpiredTimerFirst []bool `json:"expired_timer_first,omitempty"`
+	// CommitLagMs, per operator: extra link delay of this operator's single-signer commit messages (late commits: the
+	// aggregated decided message of a faster operator overtakes them). Not used in in-order mode.
+	CommitLagMs []int `json:"commit_lag_ms,omitempty"`
 }
 
 // ---- process-wide fixtures --------------------------------------------------------------------------
@@ -350,8 +362,10 @@ type oper struct {
 	armGen   int
 	faulty   *Silence
 	crashAt  int64
-	decided  int // aggregated decided messages broadcast
+	decided  int                       // aggregated decided messages broadcast
+	rcData   map[specqbft.Round]string // full data (hash) of the prepared round-change sent for a round
 	lastSent specqbft.Round
+	expired  *event                   // an already expired timer whose event goes to the queue before the next pop
 	curRound specqbft.Round           // last armed round
 	leftAt   map[specqbft.Round]int64 // when the operator left round r (armed a timer for a later round)
 }
@@ -368,6 +382,7 @@ const (
 	evArrive
 	evTimer
 	evWake
+	evEmit
 )
 
 type event struct {
@@ -385,8 +400,10 @@ type event struct {
 
 type evHeap []*event
 
-func (h evHeap) Len() int            { return len(h) }
-func (h evHeap) Less(i, j int) bool  { return h[i].t < h[j].t || (h[i].t == h[j].t && h[i].seq < h[j].seq) }
+func (h evHeap) Len() int { return len(h) }
+func (h evHeap) Less(i, j int) bool {
+	return h[i].t < h[j].t || (h[i].t == h[j].t && h[i].seq < h[j].seq)
+}
 func (h evHeap) Swap(i, j int)       { h[i], h[j] = h[j], h[i] }
 func (h *evHeap) Push(x interface{}) { *h = append(*h, x.(*event)) }
 func (h *evHeap) Pop() interface{} {
@@ -417,21 +434,24 @@ type sim struct {
 	log       []string
 
 	// oracle state
-	fail          *prog.Failure
-	violated      bool // a link delay carried a message past the end of its round at some receiver
-	judged        int
-	results       map[string]int // class:text -> count over judged messages
-	unjudged      map[string]int
-	reachedRound  specqbft.Round
-	preparedRC    int
-	justProposal  int
-	justPrepared  int
-	decidedRepeat bool
-	bigMsg        int
-	partialMsgs   int
-	outOfPremise  map[string]int
-	beyond        map[string]int
-	horizon       int64 // reception times at or after this are outside the duty's time window and not judged
+	fail                      *prog.Failure
+	violated                  bool // a link delay carried a message past the end of its round at some receiver
+	lagged                    bool // an operator lagged: it emitted a message of a round its receiver had already left
+	judged                    int
+	results                   map[string]int // class:text -> count over judged messages
+	unjudged                  map[string]int
+	reachedRound              specqbft.Round
+	preparedRC                int
+	justProposal              int
+	justPrepared              int
+	decidedRepeat             bool
+	otherValueAfterPreparedRC int // proposals of a value other than the one the proposer's own round-change of that round carried
+	levelWithEstimate         int // judged consensus messages whose round is above the round a 2 s/round clock started at the slot start shows at reception (class only)
+	bigMsg                    int
+	partialMsgs               int
+	outOfPremise              map[string]int
+	beyond                    map[string]int
+	horizon                   int64 // reception times at or after this are outside the duty's time window and not judged
 }
 
 func (s *sim) logf(f string, a ...any) {
@@ -605,8 +625,14 @@ func (s *sim) onArm(o *oper, h specqbft.Height, r specqbft.Round) {
 		s.discard = "wall clock too jittery to read the round deadline"
 		return
 	}
-	if dl < o.now {
-		dl = o.now // time.NewTimer with a non-positive duration fires at once
+	if dl <= o.now {
+		// time.NewTimer with a non-positive duration fires at once
+		dl = o.now + 1
+		if i := int(o.id) - 1; i < len(s.p.ExpiredTimerFirst) && s.p.ExpiredTimerFirst[i] {
+			dl = o.now
+			o.expired = &event{t: dl, kind: evTimer, op: o, h: h, r: r, gen: o.armGen}
+			return // handed to the queue by consume() before its next pop
+		}
 	}
 	s.push(&event{t: dl, kind: evTimer, op: o, h: h, r: r, gen: o.armGen})
 }
@@ -685,14 +711,21 @@ func slug(s string) string {
 	return strings.TrimSuffix(b.String(), "-")
 }
 
+// onBroadcast captures a Broadcast call. The message leaves the operator at the operator's local time (later than the
+// event being processed when the handler blocked on its beacon node), so the emission itself is an event: the
+// validating peer and the links see messages in emission-time order.
 func (s *sim) onBroadcast(o *oper, m *spectypes.SSVMessage) {
 	dec, err := queue.DecodeSSVMessage(m)
 	if err != nil {
 		s.fail = prog.Failf("C10:undecodable-broadcast", "operator %d broadcast a message that does not decode: %v", o.id, err)
 		return
 	}
+	s.push(&event{t: o.now, kind: evEmit, op: o, msg: dec})
+}
+
+func (s *sim) emit(o *oper, dec *queue.DecodedSSVMessage, te int64) {
+	m := dec.SSVMessage
 	kind := msgKind(m, dec.Body)
-	te := o.now
 	var round specqbft.Round
 	sm, isQ := dec.Body.(*specqbft.SignedMessage)
 	if isQ {
@@ -718,6 +751,9 @@ func (s *sim) onBroadcast(o *oper, m *spectypes.SSVMessage) {
 	if isQ && o.faulty == nil {
 		switch kind {
 		case "proposal":
+			if h, ok := o.rcData[round]; ok && h != prog.Hash(sm.FullData) {
+				s.otherValueAfterPreparedRC++
+			}
 			if round >= 2 {
 				s.justProposal++
 				if len(sm.Message.PrepareJustification) > 0 {
@@ -727,6 +763,10 @@ func (s *sim) onBroadcast(o *oper, m *spectypes.SSVMessage) {
 		case "round-change":
 			if sm.Message.RoundChangePrepared() {
 				s.preparedRC++
+				if o.rcData == nil {
+					o.rcData = map[specqbft.Round]string{}
+				}
+				o.rcData[round] = prog.Hash(sm.FullData)
 			}
 		case "decided":
 			o.decided++
@@ -753,6 +793,9 @@ func (s *sim) onBroadcast(o *oper, m *spectypes.SSVMessage) {
 			}
 			if d < 1 {
 				d = 1
+			}
+			if i := int(o.id) - 1; kind == "commit" && !s.p.InOrder && i < len(s.p.CommitLagMs) {
+				d += int64(s.p.CommitLagMs[i])
 			}
 		}
 		at := te + d
@@ -805,7 +848,8 @@ func (s *sim) validate(o *oper, m *spectypes.SSVMessage, dec *queue.DecodedSSVMe
 	if len(data) > 1<<20 {
 		s.bigMsg++
 	}
-	at := s.slotStart.Add(time.Duration(recv) * time.Millisecond)
+	peerRecv := recv - int64(s.p.PeerBehindMs)
+	at := s.slotStart.Add(time.Duration(peerRecv) * time.Millisecond)
 	if at.After(s.mon.clock.Now()) {
 		s.mon.clock.Set(at)
 	}
@@ -836,6 +880,12 @@ func (s *sim) validate(o *oper, m *spectypes.SSVMessage, dec *queue.DecodedSSVMe
 		return
 	}
 	s.judged++
+	if d := os.Getenv("C10_DEBUG_JUDGED"); d != "" && class != "accept" && strings.Contains(text, d) && s.fail == nil {
+		s.fail = prog.Failf("C10:debug-judged", "debug: op %d %s r%d: %s %s", o.id, kind, round, class, text)
+	}
+	if round >= 2 && round <= 8 && peerRecv < int64(round-1)*2000 {
+		s.levelWithEstimate++
+	}
 	if class != "accept" {
 		s.results[class+":"+text+":"+kind]++
 	}
@@ -848,6 +898,11 @@ func (s *sim) validate(o *oper, m *spectypes.SSVMessage, dec *queue.DecodedSSVMe
 			return
 		}
 		sig := "C10:reject:" + slug(text) + ":" + kind
+		if s.lagged {
+			// links and timers are timely, but some operator runs behind the others (late duty start; the proposer
+			// role's per-operator timers): separately listable
+			sig = "C10:reject-with-lagging-operator:" + slug(text) + ":" + kind
+		}
 		if prog.IsKnown(sig) {
 			prog.KnownHit(testName, sig)
 			return
@@ -861,6 +916,11 @@ func (s *sim) validate(o *oper, m *spectypes.SSVMessage, dec *queue.DecodedSSVMe
 	if class == "ignore" && s.faultFree() && s.p.InOrder && !s.violated && s.fail == nil {
 		if s.staleFromLagging(dec, text) {
 			s.results["stale-from-lagging-operator:"+kind]++
+			return
+		}
+		if peerRecv < 0 && text == validation.ErrEarlyMessage.Text() {
+			// the peer's clock still shows the previous slot: not a property of the message
+			s.results["early-by-peer-clock:"+kind]++
 			return
 		}
 		sig := "C10:fault-free-not-accepted:" + slug(text) + ":" + kind
@@ -902,6 +962,13 @@ func (s *sim) consume(o *oper, t int64) {
 	}
 	for s.fail == nil && s.discard == "" {
 		o.now = t
+		if e := o.expired; e != nil {
+			o.expired = nil
+			if e.gen == o.armGen && o.run.HasRunningDuty() {
+				e.t = t
+				s.pushTimeout(o, e)
+			}
+		}
 		st := queue.State{Quorum: o.run.GetBaseRunner().Share.Quorum, Round: 1}
 		var running *instance.Instance
 		hasDuty := o.run.HasRunningDuty()
@@ -1029,13 +1096,19 @@ func (s *sim) run() {
 				s.consume(o, e.t)
 			}
 		case evArrive:
-			if sm, ok := e.msg.Body.(*specqbft.SignedMessage); ok && len(sm.Signers) == 1 {
+			if sm, ok := e.msg.Body.(*specqbft.SignedMessage); ok && len(sm.Signers) == 1 && sm.Signers[0] != o.id {
 				// premise monitor: the link carried the message past the end of its round at this receiver - the
 				// receiver was in the message's round (or before it) when the message was emitted and left that
 				// round strictly later, before the message arrived. (A receiver that had left the round already,
 				// or races through rounds whose deadlines have passed at the very instant of emission, makes the
 				// message stale at its source; that is not the link's doing.)
 				left, was := o.leftAt[sm.Message.Round]
+				if inst := o.inst(); inst != nil && inst.State.Round > sm.Message.Round && !(e.rAtEm != 0 && e.rAtEm <= sm.Message.Round && was && left > e.te) {
+					if !s.lagged {
+						s.logf("t=%d LAGGING: %s r%d from op%v was emitted when op%d had already left that round", e.t, msgKind(nil, sm), sm.Message.Round, sm.Signers, o.id)
+					}
+					s.lagged = true
+				}
 				if inst := o.inst(); inst != nil && inst.State.Round > sm.Message.Round && e.rAtEm != 0 && e.rAtEm <= sm.Message.Round && was && left > e.te {
 					if !s.violated {
 						s.logf("t=%d PREMISE: %s r%d from op%v reaches op%d in round %d", e.t, msgKind(nil, sm), sm.Message.Round, sm.Signers, o.id, inst.State.Round)
@@ -1055,23 +1128,30 @@ func (s *sim) run() {
 			if !o.run.HasRunningDuty() {
 				continue // validator.onTimeout drops it
 			}
-			data, _ := json.Marshal(ssvtypes.TimeoutData{Height: e.h, Round: e.r})
-			em := &ssvtypes.EventMsg{Type: ssvtypes.Timeout, Data: data}
-			raw, _ := em.Encode()
-			dm, err := queue.DecodeSSVMessage(&spectypes.SSVMessage{MsgType: ssvmessage.SSVEventMsgType, MsgID: spectypes.MessageIDFromBytes(o.ctrl.Identifier), Data: raw})
-			if err != nil {
-				panic(err)
-			}
-			s.logf("t=%d op%d timer (h%d r%d) fires", e.t, o.id, e.h, e.r)
-			o.q.TryPush(dm)
+			s.pushTimeout(o, e)
 			s.consume(o, e.t)
 		case evWake:
 			if e.t >= o.busy {
 				s.consume(o, e.t)
 			}
+		case evEmit:
+			s.emit(o, e.msg, e.t)
 		}
 		// remember the highest round each operator has spoken in (after the event, i.e. in emission order)
 	}
+}
+
+// pushTimeout is validator.(*Validator).onTimeout: the timer's event message goes into the operator's queue.
+func (s *sim) pushTimeout(o *oper, e *event) {
+	data, _ := json.Marshal(ssvtypes.TimeoutData{Height: e.h, Round: e.r})
+	em := &ssvtypes.EventMsg{Type: ssvtypes.Timeout, Data: data}
+	raw, _ := em.Encode()
+	dm, err := queue.DecodeSSVMessage(&spectypes.SSVMessage{MsgType: ssvmessage.SSVEventMsgType, MsgID: spectypes.MessageIDFromBytes(o.ctrl.Identifier), Data: raw})
+	if err != nil {
+		panic(err)
+	}
+	s.logf("t=%d op%d timer (h%d r%d) fires", e.t, o.id, e.h, e.r)
+	o.q.TryPush(dm)
 }
 
 func (s *sim) noteSent(o *oper, r specqbft.Round) {
@@ -1127,8 +1207,23 @@ func runSim(p Prog) (*prog.Result, *sim) {
 	if s.decidedRepeat {
 		cl = append(cl, "decided-repeats")
 	}
+	if s.otherValueAfterPreparedRC > 0 {
+		cl = append(cl, "proposal-of-other-value-after-own-prepared-round-change")
+	}
+	if s.levelWithEstimate > 0 {
+		cl = append(cl, "round-ahead-of-a-2s-clock-at-reception")
+	}
 	if s.violated {
 		cl = append(cl, "link-left-premise")
+	}
+	if s.lagged {
+		cl = append(cl, "lagging-operator")
+	}
+	if !s.violated && !s.lagged {
+		cl = append(cl, "strictly-synchronous")
+		if s.reachedRound > 1 {
+			cl = append(cl, "strictly-synchronous-with-round-changes")
+		}
 	}
 	if s.bigMsg > 0 {
 		cl = append(cl, "message-over-1MiB")
@@ -1210,6 +1305,9 @@ func sane(p Prog) string {
 	if p.SlotOff < 0 || p.SlotOff > 31 {
 		return "slot"
 	}
+	if p.PeerBehindMs < 0 || p.PeerBehindMs > 50 {
+		return "peer-clock"
+	}
 	for _, x := range p.SyncIdx {
 		if x < 0 || x >= syncCommitteeSize {
 			return "syncidx"
@@ -1245,7 +1343,25 @@ func gen(t *rapid.T) Prog {
 	// shape: 0 fault-free on time, 1 fault-free with late starters, 2 silent operators, 3 silent operators + late starters
 	// 4 = "prepared": 1..f operators that never send a commit + f+1-that-many correct late starters: the operators
 	// present in the first rounds reach a prepare quorum but no commit quorum, so round changes carry prepared values
-	shape := rapid.SampledFrom([]int{0, 1, 1, 1, 2, 3, 3, 3, 4, 4, 4}).Draw(t, "shape")
+	// 5 = "fast cluster, slow leader" (proposer role only): everybody is correct and starts at the slot start over
+	// millisecond links, but the round-1 leader's beacon node needs more than the round allowance to build the block,
+	// so the others time out 2 s after a consensus start that is only milliseconds after the slot start - the one
+	// place where an honest round number runs level with the validator's estimate from the slot start
+	shapes := []int{0, 0, 1, 1, 1, 2, 3, 3, 3, 4, 4, 4}
+	if role == spectypes.BNRoleProposer {
+		shapes = append(shapes, 5, 5)
+	}
+	// 6 = "lagging leader" (roles without pre-consensus): fault-free; the round-1 leader and n-f-2 others start on
+	// time (no quorum), f+1 operators start after the round-1 deadline, the last of them being the leader of the round
+	// it starts in, with another duty-data variant than the round-1 leader. It drains a backlog holding the round-1
+	// proposal and a prepare quorum, so it is prepared while the others are not.
+	if role == spectypes.BNRoleAttester || role == spectypes.BNRoleSyncCommittee {
+		shapes = append(shapes, 6, 6)
+	}
+	shape := rapid.SampledFrom(shapes).Draw(t, "shape")
+	if fs := os.Getenv("C10_FORCE_SHAPE"); fs != "" { // debugging aid: measure what one shape reaches
+		shape = int(fs[0] - '0')
+	}
 	common := 0
 	if role == spectypes.BNRoleAttester || role == spectypes.BNRoleSyncCommittee {
 		common = rapid.IntRange(300, 4000).Draw(t, "block_arrival") // scheduler waits for the head block or one third of the slot
@@ -1258,9 +1374,57 @@ func gen(t *rapid.T) Prog {
 		}
 		p.BNMs = append(p.BNMs, bn)
 		p.ValVar = append(p.ValVar, rapid.SampledFrom([]int{0, 0, 0, 1, 2}).Draw(t, "variant"))
+		p.ExpiredTimerFirst = append(p.ExpiredTimerFirst, rapid.Bool().Draw(t, "expired_timer_first"))
+	}
+	if shape == 5 {
+		base := uint64(beaconprotocol.NewNetwork(spectypes.PraterNetwork).GetEpochFirstSlot(baseEpochCapella))
+		if p.Deneb {
+			base = uint64(beaconprotocol.NewNetwork(spectypes.PraterNetwork).GetEpochFirstSlot(baseEpochDeneb))
+		}
+		leader := int((base + uint64(p.SlotOff)) % uint64(p.N)) // index of the round-1 leader (only shapes the case; nothing is judged with it)
+		for i := 0; i < p.N; i++ {
+			p.StartMs[i] = rapid.IntRange(0, 3).Draw(t, "fast_start")
+			p.BNMs[i] = rapid.IntRange(0, 15).Draw(t, "fast_bn")
+		}
+		p.BNMs[leader] = rapid.IntRange(1900, 2600).Draw(t, "slow_leader_bn")
+		p.InOrder = true
+		p.DelayMs = rapid.IntRange(1, 4).Draw(t, "fast_delay")
+		p.Deltas = []int{rapid.IntRange(0, 25).Draw(t, "fast_delta")}
+		p.PeerBehindMs = rapid.IntRange(0, 50).Draw(t, "peer_behind")
+		return p
+	}
+	if rapid.IntRange(0, 3).Draw(t, "peer_clock") == 0 {
+		p.PeerBehindMs = rapid.IntRange(1, 50).Draw(t, "peer_behind")
+	}
+	if shape == 6 {
+		base := uint64(beaconprotocol.NewNetwork(spectypes.PraterNetwork).GetEpochFirstSlot(baseEpochCapella))
+		lead := func(r int) int { return int((base + uint64(p.SlotOff) + uint64(r) - 1) % uint64(p.N)) } // shapes the case only
+		R := rapid.IntRange(2, minInt(maxR, 5)).Draw(t, "lag_round")
+		for lead(R) == lead(1) {
+			R++
+		}
+		l1, lr := lead(1), lead(R)
+		cand := []int{}
+		for i := 0; i < p.N; i++ {
+			if i != l1 && i != lr {
+				cand = append(cand, i)
+			}
+		}
+		others := rapid.SliceOfNDistinct(rapid.SampledFrom(cand), f, f, rapid.ID[int]).Draw(t, "lag_others")
+		p.LateRound = make([]int, p.N)
+		p.LateFrac = make([]int, p.N)
+		f0 := rapid.IntRange(200, 950).Draw(t, "lag_leader_frac")
+		p.LateRound[lr], p.LateFrac[lr] = R, f0
+		for _, i := range others { // inside round R as well (its leader is still absent), before the leader
+			p.LateRound[i] = R
+			p.LateFrac[i] = rapid.IntRange(0, f0-150).Draw(t, "lag_other_frac_before")
+		}
+		p.ValVar[l1] = 0
+		p.ValVar[lr] = rapid.IntRange(1, 2).Draw(t, "lag_variant")
+		p.ExpiredTimerFirst[lr] = rapid.IntRange(0, 3).Draw(t, "lag_timer_first") == 0
 	}
 	nf := 0
-	if shape >= 2 {
+	if shape >= 2 && shape <= 4 {
 		nf = rapid.IntRange(1, f).Draw(t, "nfaulty")
 		ids := rapid.SliceOfNDistinct(rapid.IntRange(1, p.N), nf, nf, rapid.ID[int]).Draw(t, "faulty_ids")
 		sort.Ints(ids)
@@ -1291,7 +1455,9 @@ func gen(t *rapid.T) Prog {
 			p.Faulty = append(p.Faulty, s)
 		}
 	}
-	if shape == 1 || shape == 3 || shape == 4 {
+	if shape == 6 {
+		// late starters are set
+	} else if shape == 1 || shape == 3 || shape == 4 {
 		// enough late starters that no (commit) quorum is present until the first of them arrives
 		nl := f + 1 - nf
 		if shape != 4 {
@@ -1325,23 +1491,47 @@ func gen(t *rapid.T) Prog {
 		}
 	}
 	inOrderPct := 65
+	if shape == 0 {
+		inOrderPct = 45 // everybody present, jittery links: commits, decided and post-consensus messages race
+	}
 	if shape >= 2 {
 		inOrderPct = 25
 	}
 	if shape == 4 {
 		inOrderPct = 50
 	}
+	if shape == 6 {
+		inOrderPct = 70
+	}
 	p.InOrder = rapid.IntRange(0, 99).Draw(t, "in_order") < inOrderPct
 	if p.InOrder {
 		p.DelayMs = rapid.IntRange(1, 300).Draw(t, "delay")
 		p.Deltas = []int{rapid.IntRange(0, 1500).Draw(t, "delta")}
 	} else {
-		hi := rapid.SampledFrom([]int{50, 200, 400, 900}).Draw(t, "delay_hi")
-		p.Delays = rapid.SliceOfN(rapid.IntRange(1, hi), 8, 48).Draw(t, "delays")
+		hi := rapid.SampledFrom([]int{50, 200, 400, 900, 0, 0}).Draw(t, "delay_hi")
+		if hi == 0 {
+			// bimodal links: aggregated decided messages overtake the commits they were built from
+			p.Delays = rapid.SliceOfN(rapid.OneOf(rapid.IntRange(1, 15), rapid.IntRange(250, 700)), 8, 48).Draw(t, "delays2")
+		} else {
+			p.Delays = rapid.SliceOfN(rapid.IntRange(1, hi), 8, 48).Draw(t, "delays")
+		}
 		p.Deltas = rapid.SliceOfN(rapid.IntRange(0, 1500), 4, 32).Draw(t, "deltas")
 		p.NoCap = rapid.IntRange(0, 4).Draw(t, "nocap") == 0
+		if rapid.IntRange(0, 2).Draw(t, "late_commits") == 0 {
+			p.CommitLagMs = make([]int, p.N)
+			for k := rapid.IntRange(1, p.N-1).Draw(t, "n_late_commit"); k > 0; k-- {
+				p.CommitLagMs[rapid.IntRange(0, p.N-1).Draw(t, "late_commit_op")] = rapid.IntRange(50, 600).Draw(t, "commit_lag")
+			}
+		}
 	}
 	return p
+}
+
+func minInt(a, b int) int {
+	if a < b {
+		return a
+	}
+	return b
 }
 
 func maxInt(a, b int) int {
